@@ -1,21 +1,23 @@
 /- Cofactor bound for the extended variant with the real cofactor width (`K = N`), sharpened: for
-operands below `2^(64N-9)` every `BInt<N>` intermediate stays below `2^(64N-1)`.
+operands below `2^(64N-8)` every `BInt<N>` intermediate stays below `2^(64N-1)`.
 Same structure as Ymq/Lemmas/GcdCof.lean (invariant for the state after the swap, `y <= x`: the
-cofactors of the larger value times the smaller value are at most `c * max(n, p)`), with `c = 254`
-instead of `1023`, and every intermediate bounded by `(c + 2) * max(n, p)` instead of `(2c + 2) * max(n, p)`.
-What makes this possible:
+cofactors of the larger value times the smaller value are at most `c * max(n, p)`), with `c = 140`
+instead of `1023`, every cofactor at most `73 * max(n, p) + 1` and every intermediate at most
+`119 * max(n, p) + 1`. What makes this possible:
 * `reduce64_row1` (the first row of the Lehmer matrix is below `2^34`): the error term of a Lehmer
   step is `m * E / xtop` with `m * E <= 2^70` instead of `2^72`, so `c >= 131` is enough;
-* at the `<64`-bit exit the sum `ex*A + ey*C` is bounded through the determinant identity
-  (`x * (ex*A + ey*C) = A * g -+ ey * p`) instead of the sum of the two products;
-* in a quotient step `|q*C| * y <= x * |C|` (floor) and `y >= 2` (ceiling). -/
+* `egcdI64_total2`: the cofactors of the final i64 `extended_gcd` are at most half the operands, so
+  the products of the `<64`-bit exit are at most `(c + 1) / 2 * max(n, p)`; their sum is bounded
+  through the determinant identity (`x * (ex*A + ey*C) = A * g -+ ey * p`);
+* in a quotient step `|q*C| * y <= x * |C|` (floor; `y = 1` apart) and `y >= 3` (ceiling). -/
 import Ymq.Lemmas.GcdCof
 import Ymq.Lemmas.GcdRow
+import Ymq.Lemmas.GcdEgcd2
 
-namespace Ymq.Gcd.T9
+namespace Ymq.Gcd.T8
 open Ymq.Gcd
 
-/-- arithmetic core of the cofactor invariant across a Lehmer step, constant 254: `w` is the new
+/-- arithmetic core of the cofactor invariant across a Lehmer step, constant 140: `w` is the new
 smaller value (`r2`, error `Ew = 2^36`, multiplier `m = |b| < 2^34`; or `r1` when the rows are
 swapped, error `Ew = 2^34`, multiplier `m = |d| < 2^36`) -/
 theorem lehmer_Z2 {x y r1 r2 w xtop ytop xl yl K u v m Ew : Nat}
@@ -26,32 +28,32 @@ theorem lehmer_Z2 {x y r1 r2 w xtop ytop xl yl K u v m Ew : Nat}
     (hvu : 2 * v ≤ u) (h63 : 9223372036854775808 ≤ xtop) (h64 : xtop < 18446744073709551616)
     (h32 : 4294967296 ≤ ytop) (hmu : m * u ≤ 2 * xtop) (hE : Ew ≤ 68719476736)
     (hmE : m * Ew ≤ 1180591620717411303424) :
-    254 * (r1 * r2) + m * y * w ≤ 254 * (x * y) := by
+    140 * (r1 * r2) + m * y * w ≤ 140 * (x * y) := by
   have hxK : xtop * K ≤ x := by omega
   have hyK : ytop * K ≤ y := by omega
   have hw' : m * w ≤ m * ((u + Ew) * K) := Nat.mul_le_mul_left m (Nat.le_of_lt hw)
   have e1 : m * ((u + Ew) * K) = (m * u + m * Ew) * K := by ring
-  by_cases hcase : 8589934592 ≤ u
+  by_cases hcase : 17179869184 ≤ u
   · -- small matrix
-    have hm : m < 4294967296 := by
+    have hm : m < 2147483648 := by
       by_contra hge
-      have hge : 4294967296 ≤ m := by omega
-      have : 4294967296 * 8589934592 ≤ m * u := Nat.mul_le_mul hge hcase
-      have e : 4294967296 * 8589934592 = 36893488147419103232 := by norm_num
+      have hge : 2147483648 ≤ m := by omega
+      have : 2147483648 * 17179869184 ≤ m * u := Nat.mul_le_mul hge hcase
+      have e : 2147483648 * 17179869184 = 36893488147419103232 := by norm_num
       omega
-    have hmE' : m * Ew ≤ 32 * xtop := by
-      calc m * Ew ≤ 4294967296 * 68719476736 := Nat.mul_le_mul (Nat.le_of_lt hm) hE
-        _ = 32 * 9223372036854775808 := by norm_num
-        _ ≤ 32 * xtop := Nat.mul_le_mul_left _ h63
-    have h1 : m * w ≤ 34 * x := by
+    have hmE' : m * Ew ≤ 16 * xtop := by
+      calc m * Ew ≤ 2147483648 * 68719476736 := Nat.mul_le_mul (Nat.le_of_lt hm) hE
+        _ = 16 * 9223372036854775808 := by norm_num
+        _ ≤ 16 * xtop := Nat.mul_le_mul_left _ h63
+    have h1 : m * w ≤ 18 * x := by
       calc m * w ≤ (m * u + m * Ew) * K := by rw [← e1]; exact hw'
-        _ ≤ (34 * xtop) * K := Nat.mul_le_mul_right _ (by omega)
-        _ = 34 * (xtop * K) := by ring
-        _ ≤ 34 * x := Nat.mul_le_mul_left _ hxK
-    have h2 : m * y * w ≤ 34 * (x * y) := by
+        _ ≤ (18 * xtop) * K := Nat.mul_le_mul_right _ (by omega)
+        _ = 18 * (xtop * K) := by ring
+        _ ≤ 18 * x := Nat.mul_le_mul_left _ hxK
+    have h2 : m * y * w ≤ 18 * (x * y) := by
       calc m * y * w = y * (m * w) := by ring
-        _ ≤ y * (34 * x) := Nat.mul_le_mul_left _ h1
-        _ = 34 * (x * y) := by ring
+        _ ≤ y * (18 * x) := Nat.mul_le_mul_left _ h1
+        _ = 18 * (x * y) := by ring
     omega
   · -- large matrix: u is small, the product of the new operands is negligible
     have hmE' : m * Ew ≤ 128 * xtop := by
@@ -95,21 +97,21 @@ structure CInv (N n p P : Nat) (s : St) : Prop where
   det : s.A * s.D - s.B * s.C = 1 ∨ s.A * s.D - s.B * s.C = -1
   hyx : s.y ≤ s.x
   hxM : s.x < M N / 2
-  zA : |s.A| * s.y ≤ 254 * P
-  zB : |s.B| * s.y ≤ 254 * P
-  cA : |s.A| ≤ 255 * P + 1
-  cB : |s.B| ≤ 255 * P + 1
-  cC : |s.C| ≤ 255 * P + 1
-  cD : |s.D| ≤ 255 * P + 1
+  zA : |s.A| * s.y ≤ 140 * P
+  zB : |s.B| * s.y ≤ 140 * P
+  cA : |s.A| ≤ 73 * P + 1
+  cB : |s.B| ≤ 73 * P + 1
+  cC : |s.C| ≤ 73 * P + 1
+  cD : |s.D| ≤ 73 * P + 1
 
-/-- the domain: `max(n, p) <= P < 2^(64N-9)` -/
+/-- the domain: `max(n, p) <= P < 2^(64N-8)` -/
 structure Dom (N n p P : Nat) : Prop where
   hn : n ≤ P
   hp : p ≤ P
-  hP : 256 * P + 256 ≤ M N / 2
+  hP : 128 * P + 128 ≤ M N / 2
 
 theorem Dom.L {N n p P : Nat} (h : Dom N n p P) :
-    (256 * (P : Int) + 256) ≤ ((M N / 2 : Nat) : Int) := by exact_mod_cast h.hP
+    (128 * (P : Int) + 128) ≤ ((M N / 2 : Nat) : Int) := by exact_mod_cast h.hP
 
 /-- the second row is controlled by the first: `x |C| <= |A| y + p`, `x |D| <= |B| y + n` -/
 theorem CInv.row2 {N n p P : Nat} {s : St} (h : CInv N n p P s) :
@@ -120,10 +122,11 @@ theorem CInv.row2 {N n p P : Nat} {s : St} (h : CInv N n p P s) :
 
 /-- `<64`-bit exit: the two `BInt` expressions `ex*A + ey*C`, `ex*B + ey*D` do not overflow -/
 theorem small_cof_total {N n p P : Nat} {s : St} (hd : Dom N n p P) (h : CInv N n p P s)
-    {ex ey g : Int} (hex : |ex| ≤ s.y) (hey : |ey| ≤ s.x) (hg : ex * s.x + ey * s.y = g)
-    (hg0 : 0 ≤ g) (hgy : g ≤ s.y) (hx1 : (1 : Int) ≤ s.x) :
+    {ex ey g : Int} (hex : |ex| ≤ s.y) (hey : |ey| ≤ s.x) (hex2 : 2 * |ex| ≤ s.y)
+    (hey2 : 2 * |ey| ≤ s.x ∨ (s.x = s.y ∧ |ey| ≤ 1)) (hg : ex * s.x + ey * s.y = g)
+    (hg0 : 0 ≤ g) (hgy : g ≤ s.y) (hy1 : 1 ≤ s.y) :
     lin2 N ex s.A ey s.C = some (ex * s.A + ey * s.C) ∧ lin2 N ex s.B ey s.D = some (ex * s.B + ey * s.D) ∧
-      |ex * s.A + ey * s.C| ≤ 255 * P := by
+      |ex * s.A + ey * s.C| ≤ 74 * P + 1 := by
   obtain ⟨r1, r2⟩ := h.row2
   have hL := hd.L
   have hnP : (n : Int) ≤ P := by exact_mod_cast hd.hn
@@ -133,70 +136,108 @@ theorem small_cof_total {N n p P : Nat} {s : St} (hd : Dom N n p P) (h : CInv N 
   have hp0 : (0 : Int) ≤ p := Int.natCast_nonneg _
   have hy0 : (0 : Int) ≤ s.y := Int.natCast_nonneg _
   have hx0 : (0 : Int) ≤ s.x := Int.natCast_nonneg _
+  have hyx : (s.y : Int) ≤ s.x := by exact_mod_cast h.hyx
+  have hy1I : (1 : Int) ≤ s.y := by exact_mod_cast hy1
   obtain ⟨E1, E2⟩ := cof_abs_bound (a := ex) (b := ey) h.xrel h.yrel h.det hx0 hn0 hp0
   rw [hg, abs_of_nonneg hg0] at E1 E2
-  have key : ∀ (A C : Int) (m : Int), |A| * s.y ≤ 254 * P → (s.x : Int) * |C| ≤ |A| * s.y + m →
-      0 ≤ m → m ≤ P → (s.x : Int) * |ex * A + ey * C| ≤ |A| * g + |ey| * m →
-      lin2 N ex A ey C = some (ex * A + ey * C) ∧ |ex * A + ey * C| ≤ 255 * P := by
-    intro A C m zA r hm0 hm hE
-    have h1 : |ex * A| ≤ 254 * P := by
+  have key : ∀ (A C : Int) (m : Int), |A| * s.y ≤ 140 * P → (s.x : Int) * |C| ≤ |A| * s.y + m →
+      0 ≤ m → m ≤ P → |A| ≤ 73 * P + 1 → |C| ≤ 73 * P + 1 →
+      (s.x : Int) * |ex * A + ey * C| ≤ |A| * g + |ey| * m →
+      lin2 N ex A ey C = some (ex * A + ey * C) ∧ |ex * A + ey * C| ≤ 74 * P + 1 := by
+    intro A C m zA r hm0 hm cA cC hE
+    have hA0 := abs_nonneg A
+    have hC0 := abs_nonneg C
+    have hey0 := abs_nonneg ey
+    have hex0 := abs_nonneg ex
+    have h1 : 2 * |ex * A| ≤ 140 * P := by
       rw [abs_mul]
-      calc |ex| * |A| ≤ s.y * |A| := mul_le_mul_of_nonneg_right hex (abs_nonneg _)
+      calc 2 * (|ex| * |A|) = (2 * |ex|) * |A| := by ring
+        _ ≤ s.y * |A| := mul_le_mul_of_nonneg_right hex2 hA0
         _ = |A| * s.y := mul_comm _ _
-        _ ≤ 254 * P := zA
-    have h2 : |ey * C| ≤ 255 * P := by
-      rw [abs_mul]
-      calc |ey| * |C| ≤ s.x * |C| := mul_le_mul_of_nonneg_right hey (abs_nonneg _)
-        _ ≤ |A| * s.y + m := r
-        _ ≤ 255 * P := by linarith
-    have h3 : |ex * A + ey * C| ≤ 255 * P := by
-      have a1 : |A| * g ≤ 254 * P := le_trans (mul_le_mul_of_nonneg_left hgy (abs_nonneg _)) zA
-      have a2 : |ey| * m ≤ s.x * P := mul_le_mul hey hm hm0 hx0
-      have a3 : (254 : Int) * P ≤ s.x * (254 * P) := le_mul_of_one_le_left (by linarith) hx1
-      have a4 : (s.x : Int) * |ex * A + ey * C| ≤ s.x * (255 * P) := by nlinarith
-      exact le_of_mul_le_mul_left a4 (by linarith)
-    exact ⟨lin2_of_abs hL (by linarith) (by linarith) (by linarith), h3⟩
-  obtain ⟨k1, k2⟩ := key s.A s.C p h.zA r1 hp0 hpP E1
-  obtain ⟨k3, _⟩ := key s.B s.D n h.zB r2 hn0 hnP E2
+        _ ≤ 140 * P := zA
+    have a1 : |A| * g ≤ 140 * P := le_trans (mul_le_mul_of_nonneg_left hgy hA0) zA
+    have hsum0 := abs_nonneg (ex * A + ey * C)
+    rcases hey2 with hey2 | ⟨hxy, hey1⟩
+    · have h2 : 2 * |ey * C| ≤ 141 * P := by
+        rw [abs_mul]
+        calc 2 * (|ey| * |C|) = (2 * |ey|) * |C| := by ring
+          _ ≤ s.x * |C| := mul_le_mul_of_nonneg_right hey2 hC0
+          _ ≤ |A| * s.y + m := r
+          _ ≤ 141 * P := by linarith
+      have h3 : |ex * A + ey * C| ≤ 74 * P + 1 := by
+        by_cases hx2 : (2 : Int) ≤ s.x
+        · have a2 : (2 * |ey|) * m ≤ s.x * P := mul_le_mul hey2 hm hm0 hx0
+          have a3 : (2 : Int) * (140 * P) ≤ s.x * (140 * P) :=
+            mul_le_mul_of_nonneg_right hx2 (by linarith)
+          have a4 : (s.x : Int) * (2 * |ex * A + ey * C|) ≤ s.x * (141 * P) := by nlinarith
+          have a5 := le_of_mul_le_mul_left a4 (by linarith : (0 : Int) < s.x)
+          linarith
+        · -- x = y = 1: ex = 0
+          have hx1 : (s.x : Int) = 1 := by omega
+          have hex0' : ex = 0 := by
+            have : |ex| = 0 := by omega
+            exact abs_eq_zero.1 this
+          have hey1 : |ey| ≤ 1 := by rw [hx1] at hey; exact hey
+          rw [hex0', zero_mul, zero_add, abs_mul]
+          calc |ey| * |C| ≤ 1 * |C| := mul_le_mul_of_nonneg_right hey1 hC0
+            _ = |C| := one_mul _
+            _ ≤ 74 * P + 1 := by linarith
+      exact ⟨lin2_of_abs hL (by linarith) (by linarith) (by linarith), h3⟩
+    · have h2 : |ey * C| ≤ 73 * P + 1 := by
+        rw [abs_mul]
+        calc |ey| * |C| ≤ 1 * |C| := mul_le_mul_of_nonneg_right hey1 hC0
+          _ = |C| := one_mul _
+          _ ≤ 73 * P + 1 := cC
+      have h3 : |ex * A + ey * C| ≤ 74 * P + 1 := by
+        have hxyI : (s.x : Int) = s.y := by exact_mod_cast hxy
+        have a2 : |ey| * m ≤ 1 * m := mul_le_mul_of_nonneg_right hey1 hm0
+        have a3 : |A| * g ≤ |A| * s.x := by rw [hxyI]; exact mul_le_mul_of_nonneg_left hgy hA0
+        have a5 : m ≤ s.x * m := le_mul_of_one_le_left hm0 (by linarith)
+        have a4 : (s.x : Int) * |ex * A + ey * C| ≤ s.x * (|A| + m) := by nlinarith
+        have a6 := le_of_mul_le_mul_left a4 (by linarith : (0 : Int) < s.x)
+        linarith
+      exact ⟨lin2_of_abs hL (by linarith) (by linarith) (by linarith), h3⟩
+  obtain ⟨k1, k2⟩ := key s.A s.C p h.zA r1 hp0 hpP h.cA h.cC E1
+  obtain ⟨k3, _⟩ := key s.B s.D n h.zB r2 hn0 hnP h.cB h.cD E2
   exact ⟨k1, k3, k2⟩
 
-/-- bound of the new cofactor `C' = a A + b C` of a quotient step: `2 y |C'| <= 258 P`, given
-`x |C'| <= |A| r' + q' m`, `2 r' <= x`, `q' y <= 2 x`, `|A| y <= 254 P`, `m <= P` -/
+/-- bound of the new cofactor `C' = a A + b C` of a quotient step: `2 y |C'| <= 144 P`, given
+`x |C'| <= |A| r' + q' m`, `2 r' <= x`, `q' y <= 2 x`, `|A| y <= 140 P`, `m <= P` -/
 theorem fb_new_cof {x y r' q' P m : Int} {A C' : Int} (hx : 0 < x) (hy : 1 ≤ y)
     (hr0 : 0 ≤ r') (hq0 : 0 ≤ q') (hm0 : 0 ≤ m) (hP0 : 0 ≤ P)
     (hE : x * |C'| ≤ |A| * r' + q' * m) (hr : 2 * r' ≤ x) (hq : q' * y ≤ 2 * x)
-    (hz : |A| * y ≤ 254 * P) (hm : m ≤ P) : 2 * |C'| ≤ 258 * P := by
+    (hz : |A| * y ≤ 140 * P) (hm : m ≤ P) : 2 * |C'| ≤ 144 * P := by
   have hA0 := abs_nonneg A
   have hC0 := abs_nonneg C'
   -- multiply hE by 2 y
   have h1 : 2 * y * (x * |C'|) ≤ 2 * y * (|A| * r' + q' * m) :=
     mul_le_mul_of_nonneg_left hE (by linarith)
-  have h2 : 2 * y * (|A| * r') ≤ 254 * P * x := by
+  have h2 : 2 * y * (|A| * r') ≤ 140 * P * x := by
     calc 2 * y * (|A| * r') = (|A| * y) * (2 * r') := by ring
-      _ ≤ (254 * P) * (2 * r') := mul_le_mul_of_nonneg_right hz (by linarith)
-      _ ≤ (254 * P) * x := mul_le_mul_of_nonneg_left hr (by linarith)
-      _ = 254 * P * x := by ring
+      _ ≤ (140 * P) * (2 * r') := mul_le_mul_of_nonneg_right hz (by linarith)
+      _ ≤ (140 * P) * x := mul_le_mul_of_nonneg_left hr (by linarith)
+      _ = 140 * P * x := by ring
   have h3 : 2 * y * (q' * m) ≤ 4 * P * x := by
     calc 2 * y * (q' * m) = 2 * m * (q' * y) := by ring
       _ ≤ 2 * m * (2 * x) := mul_le_mul_of_nonneg_left hq (by linarith)
       _ ≤ 2 * P * (2 * x) := mul_le_mul_of_nonneg_right (by linarith) (by linarith)
       _ = 4 * P * x := by ring
-  have h4 : x * (2 * y * |C'|) ≤ x * (258 * P) := by nlinarith
-  have h5 : 2 * y * |C'| ≤ 258 * P := le_of_mul_le_mul_left h4 hx
+  have h4 : x * (2 * y * |C'|) ≤ x * (144 * P) := by nlinarith
+  have h5 : 2 * y * |C'| ≤ 144 * P := le_of_mul_le_mul_left h4 hx
   have h6 : 2 * |C'| ≤ 2 * y * |C'| := by nlinarith
   linarith
 
-/-- new invariant `|C| r' <= 256 P` after a quotient step (the old second row becomes the first) -/
+/-- new invariant `|C| r' <= 128 P` after a quotient step (the old second row becomes the first) -/
 theorem fb_new_z {x y r' P m : Int} {A C : Int} (hx : 0 < x) (hr0 : 0 ≤ r') (hP0 : 0 ≤ P)
-    (hrow : x * |C| ≤ |A| * y + m) (hr : 2 * r' ≤ x) (hz : |A| * y ≤ 254 * P) (hm : m ≤ P) :
-    |C| * r' ≤ 254 * P := by
+    (hrow : x * |C| ≤ |A| * y + m) (hr : 2 * r' ≤ x) (hz : |A| * y ≤ 140 * P) (hm : m ≤ P) :
+    |C| * r' ≤ 140 * P := by
   have hC0 := abs_nonneg C
-  have h1 : x * |C| ≤ 255 * P := by linarith
-  have h2 : x * (2 * (|C| * r')) ≤ x * (255 * P) := by
+  have h1 : x * |C| ≤ 141 * P := by linarith
+  have h2 : x * (2 * (|C| * r')) ≤ x * (141 * P) := by
     calc x * (2 * (|C| * r')) = (x * |C|) * (2 * r') := by ring
-      _ ≤ (255 * P) * (2 * r') := mul_le_mul_of_nonneg_right h1 (by linarith)
-      _ ≤ (255 * P) * x := mul_le_mul_of_nonneg_left hr (by linarith)
-      _ = x * (255 * P) := by ring
+      _ ≤ (141 * P) * (2 * r') := mul_le_mul_of_nonneg_right h1 (by linarith)
+      _ ≤ (141 * P) * x := mul_le_mul_of_nonneg_left hr (by linarith)
+      _ = x * (141 * P) := by ring
   have h3 := le_of_mul_le_mul_left h2 hx
   linarith
 
@@ -225,8 +266,8 @@ theorem fallback_cof_total {N n p P : Nat} {s : St} (hd : Dom N n p P)
   obtain ⟨row2C, row2D⟩ := h.row2
   have hxI : (0 : Int) < s.x := by exact_mod_cast hxpos
   have hyI : (1 : Int) ≤ s.y := by exact_mod_cast hypos
-  have hAle : |s.A| ≤ 254 * P := le_trans (le_mul_of_one_le_right (abs_nonneg _) hyI) h.zA
-  have hBle : |s.B| ≤ 254 * P := le_trans (le_mul_of_one_le_right (abs_nonneg _) hyI) h.zB
+  have hAle : |s.A| ≤ 140 * P := le_trans (le_mul_of_one_le_right (abs_nonneg _) hyI) h.zA
+  have hBle : |s.B| ≤ 140 * P := le_trans (le_mul_of_one_le_right (abs_nonneg _) hyI) h.zB
   unfold fallbackStep
   simp only [if_true]
   rw [show chkU N (s.x / s.y * s.y) = some (s.x / s.y * s.y) from by
@@ -273,10 +314,10 @@ theorem fallback_cof_total {N n p P : Nat} {s : St} (hd : Dom N n p P)
     have pD : |((q : Int) + 1) * s.D| ≤ |((q : Int) + 1) * s.D - s.B| + |s.B| := by
       have := abs_add_le (((q : Int) + 1) * s.D - s.B) s.B
       simpa using this
-    have hy2 : (2 : Int) ≤ s.y := by exact_mod_cast (by omega : 2 ≤ s.y)
-    have hA2 : 2 * |s.A| ≤ 254 * P :=
+    have hy2 : (3 : Int) ≤ s.y := by exact_mod_cast (by omega : 3 ≤ s.y)
+    have hA2 : 3 * |s.A| ≤ 140 * P :=
       le_trans (by rw [mul_comm]; exact mul_le_mul_of_nonneg_left hy2 (abs_nonneg _)) h.zA
-    have hB2 : 2 * |s.B| ≤ 254 * P :=
+    have hB2 : 3 * |s.B| ≤ 140 * P :=
       le_trans (by rw [mul_comm]; exact mul_le_mul_of_nonneg_left hy2 (abs_nonneg _)) h.zB
     rw [mulSub_of_abs hL (by linarith) (by linarith), mulSub_of_abs hL (by linarith) (by linarith)]
     refine ⟨_, rfl, ?_, by simp only; omega⟩
@@ -313,22 +354,25 @@ theorem fallback_cof_total {N n p P : Nat} {s : St} (hd : Dom N n p P)
     have hqyx : (q : Int) * s.y ≤ s.x := by
       have : q * s.y ≤ s.x := by omega
       exact_mod_cast this
-    have qC : |(q : Int) * s.C| ≤ 255 * P := by
+    have qrow : ∀ (A C : Int) (m : Int), |A| * s.y ≤ 140 * P → (s.x : Int) * |C| ≤ |A| * s.y + m →
+        m ≤ P → |A| ≤ 73 * P + 1 → |(q : Int) * C| ≤ 74 * P + 1 := by
+      intro A C m zA row hm cA
+      have hC0 := abs_nonneg C
+      have hA0 := abs_nonneg A
       rw [abs_mul, abs_of_nonneg hq0]
-      calc (q : Int) * |s.C| ≤ (q : Int) * |s.C| * s.y :=
-            le_mul_of_one_le_right (mul_nonneg hq0 (abs_nonneg _)) hyI
-        _ = ((q : Int) * s.y) * |s.C| := by ring
-        _ ≤ s.x * |s.C| := mul_le_mul_of_nonneg_right hqyx (abs_nonneg _)
-        _ ≤ |s.A| * s.y + p := row2C
-        _ ≤ 255 * P := by have := h.zA; linarith
-    have qD : |(q : Int) * s.D| ≤ 255 * P := by
-      rw [abs_mul, abs_of_nonneg hq0]
-      calc (q : Int) * |s.D| ≤ (q : Int) * |s.D| * s.y :=
-            le_mul_of_one_le_right (mul_nonneg hq0 (abs_nonneg _)) hyI
-        _ = ((q : Int) * s.y) * |s.D| := by ring
-        _ ≤ s.x * |s.D| := mul_le_mul_of_nonneg_right hqyx (abs_nonneg _)
-        _ ≤ |s.B| * s.y + n := row2D
-        _ ≤ 255 * P := by have := h.zB; linarith
+      have hqC0 : 0 ≤ (q : Int) * |C| := mul_nonneg hq0 hC0
+      have k1 : (q : Int) * |C| * s.y ≤ |A| * s.y + m := by
+        calc (q : Int) * |C| * s.y = ((q : Int) * s.y) * |C| := by ring
+          _ ≤ s.x * |C| := mul_le_mul_of_nonneg_right hqyx hC0
+          _ ≤ |A| * s.y + m := row
+      rcases (by omega : s.y = 1 ∨ 2 ≤ s.y) with hy1 | hy2
+      · have : (s.y : Int) = 1 := by exact_mod_cast hy1
+        rw [this] at k1; linarith
+      · have hy2I : (2 : Int) ≤ s.y := by exact_mod_cast hy2
+        have : (q : Int) * |C| * 2 ≤ (q : Int) * |C| * s.y := mul_le_mul_of_nonneg_left hy2I hqC0
+        linarith
+    have qC := qrow s.A s.C p h.zA row2C hpP h.cA
+    have qD := qrow s.B s.D n h.zB row2D hnP h.cB
     rw [subMul_of_abs hL (by linarith) (by linarith), subMul_of_abs hL (by linarith) (by linarith)]
     refine ⟨_, rfl, ?_, by simp only; omega⟩
     have zC := fb_new_z hxI hr0 hP0 row2C hr' h.zA hpP
@@ -342,36 +386,36 @@ theorem fallback_cof_total {N n p P : Nat} {s : St} (hd : Dom N n p P)
       · left; linear_combination (-1 : Int) * hdt
 
 
-/-- transfer of the invariant `|row| * (other value) <= 254 P` through a Lehmer step -/
+/-- transfer of the invariant `|row| * (other value) <= 140 P` through a Lehmer step -/
 theorem new_z {x y v1 w1 A R m pp P : Int} (hxy : 0 < x * y) (hy0 : 0 ≤ y) (hw0 : 0 ≤ w1)
     (hv0 : 0 ≤ v1) (hm0 : 0 ≤ m) (hP0 : 0 ≤ P) (hpp0 : 0 ≤ pp)
-    (hE : x * |R| ≤ |A| * v1 + m * pp) (hz : |A| * y ≤ 254 * P) (hpp : pp ≤ P)
-    (hZ : 254 * (v1 * w1) + m * y * w1 ≤ 254 * (x * y)) : |R| * w1 ≤ 254 * P := by
+    (hE : x * |R| ≤ |A| * v1 + m * pp) (hz : |A| * y ≤ 140 * P) (hpp : pp ≤ P)
+    (hZ : 140 * (v1 * w1) + m * y * w1 ≤ 140 * (x * y)) : |R| * w1 ≤ 140 * P := by
   have hR0 := abs_nonneg R
   have hA0 := abs_nonneg A
   have h1 : (x * |R|) * (y * w1) ≤ (|A| * v1 + m * pp) * (y * w1) :=
     mul_le_mul_of_nonneg_right hE (mul_nonneg hy0 hw0)
-  have h2 : (|A| * v1 + m * pp) * (y * w1) ≤ P * (254 * (v1 * w1) + m * y * w1) := by
-    have a1 : (|A| * y) * (v1 * w1) ≤ (254 * P) * (v1 * w1) :=
+  have h2 : (|A| * v1 + m * pp) * (y * w1) ≤ P * (140 * (v1 * w1) + m * y * w1) := by
+    have a1 : (|A| * y) * (v1 * w1) ≤ (140 * P) * (v1 * w1) :=
       mul_le_mul_of_nonneg_right hz (mul_nonneg hv0 hw0)
     have a2 : (m * pp) * (y * w1) ≤ (m * P) * (y * w1) :=
       mul_le_mul_of_nonneg_right (mul_le_mul_of_nonneg_left hpp hm0) (mul_nonneg hy0 hw0)
     calc (|A| * v1 + m * pp) * (y * w1) = (|A| * y) * (v1 * w1) + (m * pp) * (y * w1) := by ring
-      _ ≤ (254 * P) * (v1 * w1) + (m * P) * (y * w1) := add_le_add a1 a2
-      _ = P * (254 * (v1 * w1) + m * y * w1) := by ring
-  have h3 : P * (254 * (v1 * w1) + m * y * w1) ≤ P * (254 * (x * y)) :=
+      _ ≤ (140 * P) * (v1 * w1) + (m * P) * (y * w1) := add_le_add a1 a2
+      _ = P * (140 * (v1 * w1) + m * y * w1) := by ring
+  have h3 : P * (140 * (v1 * w1) + m * y * w1) ≤ P * (140 * (x * y)) :=
     mul_le_mul_of_nonneg_left hZ hP0
-  have h4 : (x * y) * (|R| * w1) ≤ (x * y) * (254 * P) := by
+  have h4 : (x * y) * (|R| * w1) ≤ (x * y) * (140 * P) := by
     calc (x * y) * (|R| * w1) = (x * |R|) * (y * w1) := by ring
-      _ ≤ P * (254 * (x * y)) := le_trans h1 (le_trans h2 h3)
-      _ = (x * y) * (254 * P) := by ring
+      _ ≤ P * (140 * (x * y)) := le_trans h1 (le_trans h2 h3)
+      _ = (x * y) * (140 * P) := by ring
   exact le_of_mul_le_mul_left h4 hxy
 
 /-- the `BInt` expression `a*A + b*C` (and its negation) of a Lehmer step fits when both products are tiny -/
-theorem lehmer_lin2 {N : Nat} {a b A C P : Int} (hL : 256 * P + 256 ≤ ((M N / 2 : Nat) : Int))
-    (hP0 : 0 ≤ P) (p1 : |a * A| * 8388608 ≤ 254 * P) (p2 : |b * C| * 8388608 ≤ 255 * P) :
+theorem lehmer_lin2 {N : Nat} {a b A C P : Int} (hL : 128 * P + 128 ≤ ((M N / 2 : Nat) : Int))
+    (hP0 : 0 ≤ P) (p1 : |a * A| * 8388608 ≤ 140 * P) (p2 : |b * C| * 8388608 ≤ 141 * P) :
     lin2 N a A b C = some (a * A + b * C) ∧ chkB N (-(a * A + b * C)) = some (-(a * A + b * C)) ∧
-    |a * A + b * C| ≤ 255 * P + 1 := by
+    |a * A + b * C| ≤ 73 * P + 1 := by
   have n1 := abs_nonneg (a * A)
   have n2 := abs_nonneg (b * C)
   have s1 := abs_add_le (a * A) (b * C)
@@ -431,8 +475,8 @@ theorem lehmer_cof_total {N n p P : Nat} {s : St} {xt yt xl yl : Nat} (hd : Dom 
   have hytI : (yt : Int) ≤ s.y := by exact_mod_cast hyt_y
   have h24I : (16777216 : Int) ≤ u := by exact_mod_cast (by norm_num at h24 ⊢; exact h24 : 16777216 ≤ u)
   obtain ⟨row2C, row2D⟩ := h.row2
-  have hC : |s.C| * s.x ≤ 255 * P := by have := h.zA; rw [mul_comm]; linarith
-  have hD : |s.D| * s.x ≤ 255 * P := by have := h.zB; rw [mul_comm]; linarith
+  have hC : |s.C| * s.x ≤ 141 * P := by have := h.zA; rw [mul_comm]; linarith
+  have hD : |s.D| * s.x ≤ 141 * P := by have := h.zB; rw [mul_comm]; linarith
   have ytxI : (yt : Int) ≤ xt := by exact_mod_cast hytx
   -- the eight products
   have paA := prod_small h24I ka h.zA hytI hytpos
@@ -501,18 +545,18 @@ theorem lehmer_cof_total {N n p P : Nat} {s : St} {xt yt xl yl : Nat} (hd : Dom 
     (by norm_num at h63 ⊢; exact h63) hxtlt (by norm_num at h32 ⊢; exact h32) hmd (by norm_num)
     (by calc d.natAbs * 17179869184 ≤ 68719476736 * 17179869184 := Nat.mul_le_mul_right _ (Nat.le_of_lt hd36)
           _ = 1180591620717411303424 := by norm_num)
-  have ZbI : 254 * ((r1 : Int) * r2) + |b| * s.y * r2 ≤ 254 * ((s.x : Int) * s.y) := by
+  have ZbI : 140 * ((r1 : Int) * r2) + |b| * s.y * r2 ≤ 140 * ((s.x : Int) * s.y) := by
     rw [← natb]; exact_mod_cast Zb
-  have ZdI : 254 * ((r2 : Int) * r1) + |d| * s.y * r1 ≤ 254 * ((s.x : Int) * s.y) := by
+  have ZdI : 140 * ((r2 : Int) * r1) + |d| * s.y * r1 ≤ 140 * ((s.x : Int) * s.y) := by
     rw [← natd, mul_comm (r2 : Int) (r1 : Int)]; exact_mod_cast Zd
   have hr1n : (0 : Int) ≤ r1 := Int.natCast_nonneg _
   have hr2n : (0 : Int) ≤ r2 := Int.natCast_nonneg _
   have hyn : (0 : Int) ≤ s.y := Int.natCast_nonneg _
   -- bounds of the new cofactors
-  have cb1 : |flipSign n1 * (a * s.A + b * s.C)| ≤ 255 * P + 1 := by rw [abs_flip]; exact q1
-  have cb2 : |flipSign n1 * (a * s.B + b * s.D)| ≤ 255 * P + 1 := by rw [abs_flip]; exact q2
-  have cb3 : |flipSign n2 * (c * s.A + d * s.C)| ≤ 255 * P + 1 := by rw [abs_flip]; exact q3
-  have cb4 : |flipSign n2 * (c * s.B + d * s.D)| ≤ 255 * P + 1 := by rw [abs_flip]; exact q4
+  have cb1 : |flipSign n1 * (a * s.A + b * s.C)| ≤ 73 * P + 1 := by rw [abs_flip]; exact q1
+  have cb2 : |flipSign n1 * (a * s.B + b * s.D)| ≤ 73 * P + 1 := by rw [abs_flip]; exact q2
+  have cb3 : |flipSign n2 * (c * s.A + d * s.C)| ≤ 73 * P + 1 := by rw [abs_flip]; exact q3
+  have cb4 : |flipSign n2 * (c * s.B + d * s.D)| ≤ 73 * P + 1 := by rw [abs_flip]; exact q4
   unfold swapSt
   simp only
   split
@@ -540,17 +584,17 @@ kept, returned cofactors in range -/
 theorem gcdStep_cof_total {N n p P : Nat} (hd : Dom N n p P) {s0 : St}
     (h : CInv N n p P (swapSt s0)) :
     ∃ st, gcdStep N N true s0 = some st ∧ (∀ s', st = .next s' → CInv N n p P (swapSt s')) ∧
-      (∀ d u v, st = .ret d u v → |u| ≤ 255 * (P : Int) + 1) := by
+      (∀ d u v, st = .ret d u v → |u| ≤ 74 * (P : Int) + 1) := by
   unfold gcdStep
   simp only
   generalize swapSt s0 = s at *
   by_cases hlx : bits s.x = 0
   · rw [if_pos hlx]
-    exact ⟨_, rfl, fun s' hs => by simp at hs, fun d u v hs => by simp at hs; rw [← hs.2.1]; exact h.cC⟩
+    exact ⟨_, rfl, fun s' hs => by simp at hs, fun d u v hs => by simp at hs; rw [← hs.2.1]; exact le_trans h.cC (by have : (0 : Int) ≤ P := Int.natCast_nonneg _; linarith)⟩
   · rw [if_neg hlx]
     by_cases hly : bits s.y = 0
     · rw [if_pos hly]
-      exact ⟨_, rfl, fun s' hs => by simp at hs, fun d u v hs => by simp at hs; rw [← hs.2.1]; exact h.cA⟩
+      exact ⟨_, rfl, fun s' hs => by simp at hs, fun d u v hs => by simp at hs; rw [← hs.2.1]; exact le_trans h.cA (by have : (0 : Int) ≤ P := Int.natCast_nonneg _; linarith)⟩
     · rw [if_neg hly]
       have hy0 : s.y ≠ 0 := fun h0 => hly (bits_eq_zero.2 h0)
       by_cases hsm : bits s.x < 64 ∧ bits s.y < 64
@@ -558,7 +602,7 @@ theorem gcdStep_cof_total {N n p P : Nat} (hd : Dom N n p P) {s0 : St}
         simp only [if_true]
         have hxs := lt_of_bits_lt_64 hsm.1
         rw [asI64_mod' hsm.1, asI64_mod' hsm.2]
-        obtain ⟨g, ex, ey, he, b1, b2⟩ := egcdI64_total hxs (Nat.pos_of_ne_zero hy0) h.hyx
+        obtain ⟨g, ex, ey, he, b1, b2, b3, b4⟩ := egcdI64_total2 hxs (Nat.pos_of_ne_zero hy0) h.hyx
         rw [he]
         simp only
         obtain ⟨hg1, hg2⟩ := egcdI64_spec he
@@ -568,8 +612,8 @@ theorem gcdStep_cof_total {N n p P : Nat} (hd : Dom N n p P) {s0 : St}
           have : Nat.gcd s.x s.y ≤ s.y := Nat.gcd_le_right _ hypos
           have e : Int.gcd (s.x : Int) (s.y : Int) = Nat.gcd s.x s.y := Int.gcd_natCast_natCast _ _
           rw [e]; exact_mod_cast this
-        obtain ⟨hu, hv, hub⟩ := small_cof_total hd h b1 b2 hg1.symm (by rw [hg2]; exact Int.natCast_nonneg _)
-          hgy (by exact_mod_cast (by have := h.hyx; omega : 1 ≤ s.x))
+        obtain ⟨hu, hv, hub⟩ := small_cof_total hd h b1 b2 b3 b4 hg1.symm (by rw [hg2]; exact Int.natCast_nonneg _)
+          hgy hypos
         rw [hu, hv]
         refine ⟨_, rfl, fun s' hs => by simp at hs, fun d u' v' hs => ?_⟩
         simp at hs
@@ -604,7 +648,7 @@ theorem gcdStep_cof_total {N n p P : Nat} (hd : Dom N n p P) {s0 : St}
 /-- the extended loop with the real cofactor width returns for every fuel that suffices -/
 theorem gcdLoop_cof_total {N n p P : Nat} (hd : Dom N n p P) :
     ∀ (f : Nat) (s : St), CInv N n p P (swapSt s) → s.x * s.y * 3 ^ f < 4 ^ f →
-    ∃ d u v, gcdLoop N N true (f + 1) s = some (d, u, v) ∧ |u| ≤ 255 * (P : Int) + 1 := by
+    ∃ d u v, gcdLoop N N true (f + 1) s = some (d, u, v) ∧ |u| ≤ 74 * (P : Int) + 1 := by
   intro f
   induction f with
   | zero =>
@@ -661,25 +705,25 @@ theorem CInv_init {N n p P : Nat} (hd : Dom N n p P) : CInv N n p P (swapSt (ini
             cA := by simp <;> linarith, cB := by simp <;> linarith,
             cC := by simp <;> linarith, cD := by simp <;> linarith }
 
-/-- the domain of the cofactor bound: operands below `2^(64N-9)` -/
-theorem Dom_of_lt {N n p : Nat} (hN : 0 < N) (hn : n < 2 ^ (64 * N - 9)) (hp : p < 2 ^ (64 * N - 9)) :
+/-- the domain of the cofactor bound: operands below `2^(64N-8)` -/
+theorem Dom_of_lt {N n p : Nat} (hN : 0 < N) (hn : n < 2 ^ (64 * N - 8)) (hp : p < 2 ^ (64 * N - 8)) :
     Dom N n p (max n p) := by
   refine ⟨Nat.le_max_left _ _, Nat.le_max_right _ _, ?_⟩
-  have hP : max n p < 2 ^ (64 * N - 9) := Nat.max_lt.2 ⟨hn, hp⟩
-  have e : M N / 2 = 256 * 2 ^ (64 * N - 9) := by
+  have hP : max n p < 2 ^ (64 * N - 8) := Nat.max_lt.2 ⟨hn, hp⟩
+  have e : M N / 2 = 128 * 2 ^ (64 * N - 8) := by
     unfold M
-    obtain ⟨m, hm⟩ : ∃ m, 64 * N = m + 9 := ⟨64 * N - 9, by omega⟩
+    obtain ⟨m, hm⟩ : ∃ m, 64 * N = m + 8 := ⟨64 * N - 8, by omega⟩
     rw [hm, Nat.add_sub_cancel]
-    have : 2 ^ (m + 9) = 2 * (256 * 2 ^ m) := by rw [Nat.pow_add]; ring
+    have : 2 ^ (m + 8) = 2 * (128 * 2 ^ m) := by rw [Nat.pow_add]; ring
     rw [this, Nat.mul_div_cancel_left _ (by decide)]
   rw [e]; omega
 
-/-- `gcd_internal::<N, true>` never panics on operands below `2^(64N-9)` -/
-theorem gcdInternal_ext_total {N n p : Nat} (hN : 0 < N) (hn : n < 2 ^ (64 * N - 9))
-    (hp : p < 2 ^ (64 * N - 9)) :
-    ∃ d u v, gcdInternal N true n p = some (d, u, v) ∧ |u| ≤ 255 * ((max n p : Nat) : Int) + 1 := by
+/-- `gcd_internal::<N, true>` never panics on operands below `2^(64N-8)` -/
+theorem gcdInternal_ext_total {N n p : Nat} (hN : 0 < N) (hn : n < 2 ^ (64 * N - 8))
+    (hp : p < 2 ^ (64 * N - 8)) :
+    ∃ d u v, gcdInternal N true n p = some (d, u, v) ∧ |u| ≤ 74 * ((max n p : Nat) : Int) + 1 := by
   have hd := Dom_of_lt hN hn hp
-  have hle : 2 ^ (64 * N - 9) ≤ M N := by unfold M; exact Nat.pow_le_pow_right (by decide) (by omega)
+  have hle : 2 ^ (64 * N - 8) ≤ M N := by unfold M; exact Nat.pow_le_pow_right (by decide) (by omega)
   have hnM : n < M N := by omega
   have hpM : p < M N := by omega
   unfold gcdInternal
@@ -689,4 +733,4 @@ theorem gcdInternal_ext_total {N n p : Nat} (hN : 0 < N) (hn : n < 2 ^ (64 * N -
   exact ⟨d, u, v, rfl, hu⟩
 
 
-end Ymq.Gcd.T9
+end Ymq.Gcd.T8
